@@ -186,8 +186,8 @@ class Fragment(AbstractApplication):
             rctr = BundleContainer()
             rctr.bundle.primary = reassm.first_frag.primary.copy()
             rctr.bundle.primary.bundle_flags &= ~PrimaryBlock.Flag.IS_FRAGMENT
-            rctr.bundle.primary.crc_type = AbstractBlock.CrcType.NONE
-            rctr.bundle.primary.crc_value = None
+            # the CRC types stay as they were in the original bundle
+            # (the primary block is bound into security operations)
 
             LOGGER.debug('Copying %d first-fragment blocks', len(reassm.first_frag.blocks))
             for blk in reassm.first_frag.blocks:
@@ -195,8 +195,7 @@ class Fragment(AbstractApplication):
             rctr.reload()
             pyld_blk = rctr.block_num(Bundle.BLOCK_NUM_PAYLOAD)
             pyld_blk.setfieldval('btsd', reassm.data)
-            pyld_blk.crc_type = AbstractBlock.CrcType.NONE
-            pyld_blk.crc_value = None
+            rctr.bundle.update_all_crc()
 
             glib.idle_add(self._agent.recv_bundle, rctr)
 
